@@ -201,6 +201,10 @@ pub trait Observer {
     }
     /// Called for every executed `Load`/`Store` with the evaluated address, before the access happens.
     fn at_access(&mut self, _def: &Term<Def>, _addr: u64, _size: usize, _state: &State) {}
+    /// Called for `Jmp::CallInd` with a return site, after the call event was recorded.
+    fn at_call_ind(&mut self, _call: &Term<Jmp>, _target: u128, _state: &mut State) -> CallAction {
+        CallAction::Default
+    }
     /// Called for `Jmp::Call` with a return site, after the call event was recorded.
     fn at_call(&mut self, _call: &Term<Jmp>, _target: &Tid, _state: &mut State) -> CallAction {
         CallAction::Default
@@ -373,7 +377,11 @@ pub fn run_sub(sub: &Term<Sub>, state: &mut State, regs: &[Variable], limits: &L
                     events.push(Event::CallInd { target: v, regs: reg_snapshot(state, regs) });
                     match return_ {
                         Some(r) => {
-                            havoc(state, regs, events.len(), havoc_keep);
+                            match obs.at_call_ind(jmp, v, state) {
+                                CallAction::Default => havoc(state, regs, events.len(), havoc_keep),
+                                CallAction::Handled => {}
+                                CallAction::Stop => return Run { events, stop: Stop::Budget, blocks: blocks_run, callother_returns: co_returns },
+                            }
                             next = Some(r);
                             terminal = false;
                         }
